@@ -13,6 +13,7 @@
    xrem: entries detached by an explicit remove command (somebody else removed the handle). *)
 From Coq Require Import List Arith NArith ZArith Bool.
 From EV Require Import AutoRemoveModel AutoRemoveProofs.
+From EV.gen Require GenAutoRemove.
 Import ListNotations.
 
 (* The statements are parametric in `lf`, the header-dependent ingredients of the wrappers:
@@ -28,7 +29,7 @@ Import ListNotations.
    (2) has seen at most max(n,1) triggers;
    (3) is attached iff it has seen fewer than max(n,1) triggers — unless someone removed its handle
        explicitly, (4) in which case it is detached;
-   (5) its counter is n minus the number of triggers and (6) no decrement left the int range.
+   (5) while attached its counter is n minus the number of triggers and (6) no decrement left the int range.
    Since this holds after every history, no call can follow the max(n,1)-th trigger. *)
 Definition counter_exact (lf : leafs) : Prop :=
   forall behav cverdict fuel prog st h k c n,
@@ -39,7 +40,7 @@ Definition counter_exact (lf : leafs) : Prop :=
     /\ (t <= Z.max n 1)%Z
     /\ (has_l h (xrem st) = false -> (attached st h = true <-> (t < Z.max n 1)%Z))
     /\ (has_l h (xrem st) = true -> attached st h = false)
-    /\ cellk (cells st) h = (n - t)%Z
+    /\ (attached st h = true -> cellk (cells st) h = (n - t)%Z)
     /\ has_l h (ovfs st) = false.
 
 (* A listener added through ConditionalRemover with condition p:
@@ -105,13 +106,15 @@ Proof.
 Qed.
 Print Assumptions C16_specification_meets_the_statements.
 
-(* n = INT_MIN is excluded above for a reason: the first decrement overflows (undefined behaviour in
-   C++); under wrap-around semantics the listener, promised max(INT_MIN,1) = 1 call, is still
-   attached after three triggers and has been called three times (observation P9), whereas the
-   specification detaches it with the first trigger. *)
+(* n = INT_MIN is excluded above for a reason.  legacy_leafs is the counter wrapper of the tree this
+   development started from, written out by hand: `if(--data->triggerCount <= 0)` on a 32-bit int,
+   removal before the call.  Its first decrement at INT_MIN overflows (undefined behaviour in C++);
+   under wrap-around semantics the listener, promised max(INT_MIN,1) = 1 call, is still attached after
+   three triggers and has been called three times (observation P9), whereas the specification
+   detaches it with the first trigger.  (For INT_MIN < n the legacy wrapper is fine: legacy_leafs_ok.) *)
 Theorem C16_counter_int_min_refuted :
-  (exists islist fuel st,
-    a_run (gen_leafs islist) (fun _ _ => []) (fun _ _ => false) fuel a_init int_min_prog = Some st
+  (exists fuel st,
+    a_run legacy_leafs (fun _ _ => []) (fun _ _ => false) fuel a_init int_min_prog = Some st
     /\ alookup 0 (ents st) = Some (0, SCounter 1 int_min)
     /\ Z.max int_min 1 = 1%Z
     /\ has_l 0 (ovfs st) = true
@@ -166,3 +169,10 @@ Example C16_helper_hypotheses_satisfiable :
   exists st, a_run (gen_leafs true) ex_behav ex_cverdict 6 a_init ex_main = Some st
     /\ strip_drops ex_main <> ex_main /\ strip_drops (ex_behav 1 1) <> ex_behav 1 1.
 Proof. eexists. split; [vm_compute; reflexivity|]. split; vm_compute; discriminate. Qed.
+
+(* The tree as it is: the GENERATED test, given INT_MIN, wraps to INT_MAX and does not remove — the
+   witness above is about the code as tie A reads it today.  After a repair of the header this
+   Example (only) no longer holds and is to be replaced by its opposite. *)
+Example C16_generated_counter_at_int_min :
+  forall islist, GenAutoRemove.counter_step islist int_dec int_min = (int_max, false).
+Proof. intros []; vm_compute; reflexivity. Qed.
